@@ -24,6 +24,8 @@ package main
 // SPEC VERDICTS  determinism:routes-differ:live-vs-restart | live-vs-crash-replay | live-vs-snapshot-replay
 //
 //	determinism:routes-differ:reads-interleaved
+//	determinism:routes-differ:busy-node | pool:same-object-handed-out-twice   (route P, c06_busy.go: other activity of
+//	              the process - another shard's applies, gets, lists - runs from inside applyPut/applyDelete)
 //
 //	snapshot:chunk-reassembly-differs
 //
@@ -452,6 +454,7 @@ func c06ReplayLog(o *hx.Out, t []string) {
 		c06RouteCrash(o, rng.Fork(), lg)
 		c06RouteSnapshot(o, rng.Fork(), lg)
 		c06RouteReads(o, rng.Fork(), lg)
+		c06RouteBusy(o, rng.Fork(), lg)
 	}
 }
 
@@ -475,6 +478,7 @@ func c06Main(o *hx.Out, f hx.Flags) {
 		c06RouteCrash(o, crng.Fork(), lg)
 		c06RouteSnapshot(o, crng.Fork(), lg)
 		c06RouteReads(o, crng.Fork(), lg)
+		c06RouteBusy(o, crng.Fork(), lg)
 	}
 	o.Extra["go_seconds"] = time.Since(t0).Seconds()
 }
